@@ -766,4 +766,15 @@ example :
       (w'.token.balances.get? "a", w'.token.balances.get? "ms")) = some (some 15, some 5) := by
   decide
 
+/-- Non-vacuity of `execute_native_tx`: `a` proposes with the native deposit, `b` votes yes (1 + 2 ≥ 3: Passed), an
+outsider's `Execute` transaction commits and the 5ucosm are back with `a`. -/
+example :
+    let w := run Cex.noExt 10 Cex.world0
+      [⟨⟨10, 0⟩, .flex "a" [⟨5, "ucosm"⟩] (.propose "t" "d" [] none)⟩, ⟨⟨10, 0⟩, .flex "b" [] (.vote 1 .yes)⟩]
+    ((w.flex.core.proposals.get? 1).map fun p => (p.status, p.deposit.map (·.cw20))) = some (.passed, some false) ∧
+    (balance w "a" "ucosm", balance w "ms" "ucosm") = (15, 5) ∧
+    ((tx Cex.noExt 10 w ⟨11, 0⟩ (.flex "x" [] (.execute 1))).toOption.map fun w' =>
+      (balance w' "a" "ucosm", balance w' "ms" "ucosm", handled w'.log 1)) = some (20, 0, 1) := by
+  decide
+
 end CwPlus.Props.C15
